@@ -16,6 +16,17 @@ def generate(ctx, harness):
         for x in ([n[2:]] if n[:2] in ("sq", "cb") and len(n) > 2 else []) + ([n[:-1]] if n[-1:] in "23" and len(n) > 1 else []):
             if x and x not in names and x not in extra and x.isalpha():
                 extra.append(x)
+    # every short prefix must agree with the long prefix it abbreviates: `<short>B` vs `<long>byte`
+    prefix_pairs = []
+    for sp_name, sp_def in short:
+        long_name = sp_def[3:] if sp_def.startswith("sp@") else sp_def
+        # (skip spellings that are table names in their own right, e.g. `dB` = decibel)
+        if sp_name.isascii() and sp_name + "B" not in names and long_name + "byte" not in names:
+            prefix_pairs.append((sp_name + "B", long_name + "byte"))
+    for a, b in prefix_pairs:
+        for x in (a, b):
+            if x not in names and x not in extra:
+                extra.append(x)
     res_extra = units.resolve(ctx, harness, extra)
     extra = [x for x in extra if res_extra[x][0] is not None]      # keep only bases the tree really resolves
     names = names + extra
@@ -51,6 +62,9 @@ def generate(ctx, harness):
         # `C` / `F` are special-cased by the lookup (temperature vs coulomb/farad mode)
         if body in idx and s in idx and body != s and rule not in ("longPrefix", "shortPrefix") and owner[s] == r_i and s not in ("C", "F"):
             alias.append((idx[s], idx[body]))
+    for a, b in prefix_pairs:
+        if a in idx and b in idx:
+            alias.append((idx[a], idx[b]))
     # square / cubic shorthand families: sqX = X2 = X^2, cbX = X3 = X^3
     fam = []
     for n in names:
@@ -71,6 +85,10 @@ def generate(ctx, harness):
                  ("percent", "1/100", {}), ("dozen", "12", {}), ("lightyear", "9460730472580800", {"meter": 1}), ("au", "149597870700", {"meter": 1}), ("angstrom", "1/10000000000", {"meter": 1}),
                  ("stone", "635029318/100000000", {"kilogram": 1}), ("gallon", "473176473/125000000000", {"meter": 3}), ("carat", "1/5000", {"kilogram": 1}), ("furlong", "25146/125", {"meter": 1}),
                  ("fathom", "1143/625", {"meter": 1}), ("hertz", "1", {"second": -1}), ("pascal", "1", {"kilogram": 1, "meter": -1, "second": -2}), ("eV", "1602176634/10000000000000000000000000000", {"kilogram": 1, "meter": 2, "second": -2}),
+                 ("KiB", str(8 * 2**10), {"bit": 1}), ("MiB", str(8 * 2**20), {"bit": 1}), ("GiB", str(8 * 2**30), {"bit": 1}), ("TiB", str(8 * 2**40), {"bit": 1}),
+                 ("PiB", str(8 * 2**50), {"bit": 1}), ("EiB", str(8 * 2**60), {"bit": 1}), ("ZiB", str(8 * 2**70), {"bit": 1}), ("YiB", str(8 * 2**80), {"bit": 1}),
+                 ("kB", "8000", {"bit": 1}), ("MB", str(8 * 10**6), {"bit": 1}), ("GB", str(8 * 10**9), {"bit": 1}), ("TB", str(8 * 10**12), {"bit": 1}), ("PB", str(8 * 10**15), {"bit": 1}),
+                 ("EB", str(8 * 10**18), {"bit": 1}), ("mB", "1/125", {"bit": 1}),
                  ("fortnight", "1209600", {"second": 1}), ("mil", "127/5000000", {"meter": 1}), ("kph", "5/18", {"meter": 1, "second": -1})]
     std = []
     for n, sc, dims in STANDARDS:
@@ -90,4 +108,30 @@ def generate(ctx, harness):
     out = os.path.join(units.GEN, "UnitsResolved.lean")
     if not os.path.exists(out) or open(out).read() != txt:
         open(out, "w").write(txt)
+    LAST.update({"names": names, "res": res, "fam": fam, "alias": alias, "sp": sp, "std": [(n, F(sc), {b: F(e) for b, e in d.items()}) for n, sc, d in STANDARDS if n in idx]})
     return table, short, currencies, names, res, fam, alias, sp
+
+LAST = {}
+
+def table_failures():
+    """concrete names on which a table theorem fails, as (fend input, what the tree answers, which clause) — the search for a failing input"""
+    names, res = LAST["names"], LAST["res"]
+    R = lambda n: res[n][0]
+    def powr(x, k): return (x[0] ** k, x[1] * k, {b: e * k for b, e in x[2].items()})
+    out = []
+    for n in names:
+        if res[n][0] is None and not res[n][1].startswith("ok approx."):
+            out.append((f"1 {n}", res[n][1][:200], "every singular and plural name of the table evaluates without error"))
+    for a, b in LAST["sp"]:
+        if R(names[a]) != R(names[b]):
+            out.append((f"(1 {names[a]}) == (1 {names[b]})", f"{res[names[a]][1][:100]} vs {res[names[b]][1][:100]}", "singular and plural denote the same quantity"))
+    for a, b in LAST["alias"]:
+        if R(names[a]) != R(names[b]):
+            out.append((f"(1 {names[a]}) == (1 {names[b]})", f"{res[names[a]][1][:100]} vs {res[names[b]][1][:100]}", "short and long spellings of one unit agree"))
+    for x, y, k in LAST["fam"]:
+        if R(names[y]) is None or R(names[x]) is None or R(names[y]) != powr(R(names[x]), k):
+            out.append((f"1 {names[y]} to {names[x]}^{k}", res[names[y]][1][:120], "sqX = X2 = X^2 and cbX = X3 = X^3"))
+    for n, sc, d in LAST["std"]:
+        if R(n) != (sc, 0, d):
+            out.append((f"@debug 1 {n}", res[n][1][:160], f"standards fix 1 {n} = {sc} x base units {d}"))
+    return out
